@@ -135,6 +135,14 @@ def getattr_(ex, o, name):
             ex.raise_(AttributeError, name)
         return bind_class_attr(ex, o.selfv, owner, raw, name, type_of_recv(ex, o.selfv))
     if isinstance(o, ElemRef):
+        mo = ex.obj(o.mref)
+        if name not in mo.cols and mo.elem_cls is not None:
+            # not a modelled field: class attribute override of the model, then the real class (methods, properties)
+            if mo.elem_model is not None and name in mo.elem_model.cls_attrs:
+                return mo.elem_model.cls_attrs[name](ex)
+            owner, raw = class_lookup(mo.elem_cls, name)
+            if owner is not None:
+                return bind_class_attr(ex, o, owner, raw, name, mo.elem_cls)
         return M.elem_get(ex, o, name)
     if isinstance(o, M.EventView):
         ev = o
@@ -419,6 +427,8 @@ def bytes_method(ex, recv, name, args, kwargs):
                 return recv.decode(*args, **kwargs)
             except Exception as e:
                 raise PyExc(e)
+        if DECODE_MODEL is not None:
+            return DECODE_MODEL(ex, recv, args, kwargs)  # (an extension models decoded text, see ext_c18.Utf8Str)
         return OpaqueStr()
     if name == 'join':
         items = ex.concrete_iter(args[0])
@@ -475,6 +485,9 @@ def bytes_method(ex, recv, name, args, kwargs):
         except Exception as e:
             raise PyExc(e)
     raise Unsupported(f'bytes.{name}')
+
+
+DECODE_MODEL = None
 
 
 def int_method(ex, recv, name, args, kwargs):
@@ -1183,6 +1196,12 @@ def m_bytes(ex, *args):
         if not ex.spec_mode and not ex.branch(mk_bool(v.t >= 0)):
             ex.raise_(ValueError, 'negative count')
         return M.bytes_repeat(ex, b'\0', v)
+    if isinstance(v, ElemRef):
+        owner, raw = class_lookup(ex.obj(v.mref).elem_cls, '__bytes__')
+        if isinstance(raw, types.FunctionType):
+            r = ex.call(ex.func_of_native(raw), [v], {})
+            return ex.as_bytes_value(r) if M.is_byteslike(ex, r) else r
+        raise PyExc(TypeError('cannot convert to bytes'))
     if isinstance(v, Ref):
         ho = ex.obj(v)
         if isinstance(ho, Obj):
